@@ -36,6 +36,10 @@ const (
 	vpItHelp             // Iterator.Next: current node marked, before helping
 	vpItRefresh          // Iterator.Refresh
 	vpAbR6               // Release: try-lock released, before re-checking the queue
+	vpSlMarkLoad         // softDelete: before loading the node's link at a level
+	vpSlReload           // findPath: unlink CAS succeeded, before reloading the predecessor's link
+	vpSlReload2          // findPath: before loading the new current node's link
+	vpItSeek             // Iterator.SeekFirst / Seek
 )
 
 // Verification yield points (see verif_on.go). Without the "verif" build tag
